@@ -155,6 +155,7 @@ ASSIGN = [
     [{'t': 'bool', 'v': False}, {'t': 'bool', 'v': True}, {'t': 'num', 'n': 3, 'd': 1}, {'t': 'num', 'n': 0, 'd': 1}],
     [{'t': 'num', 'n': 1, 'd': 1}, {'t': 'num', 'n': 0, 'd': 1}, {'t': 'bool', 'v': True}, {'t': 'blank'}],
     [{'t': 'blank'}, {'t': 'num', 'n': -1, 'd': 1}, {'t': 'bool', 'v': False}, {'t': 'bool', 'v': True}],
+    [{'t': 'bool', 'v': True}, {'t': 'err', 'v': '#N/A'}, {'t': 'num', 'n': 1, 'd': 1}, {'t': 'bool', 'v': True}],
 ]
 
 BUG_MODELS = {}
